@@ -298,7 +298,8 @@ def check_proofs(pid):
     # (a) property files contain statements closed by `exact`, nothing else
     bodies = re.findall(r"Proof\.(.*?)Qed\.", code, flags=re.S)
     for b in bodies:
-        if not re.fullmatch(r"\s*(intros[^.]*\.\s*)?(exact|apply)\s[^.]*(\.[\w']+)*[^.]*\.\s*", b):
+        if not re.fullmatch(r"\s*(intros[^.;]*[.;]\s*)?(exact|apply)\s[^;]*\.\s*", b) or \
+                re.search(r"\b(lia|auto|eauto|induction|destruct|rewrite|tauto|firstorder|admit|vm_compute|reflexivity|by)\b", b):
             res["problems"].append("property proof is not a single exact/apply: " + b.strip()[:80])
     if len(bodies) != len(thms):
         res["problems"].append("theorem/proof count mismatch")
